@@ -9,6 +9,8 @@ Rules (DESIGN.md section 3, C19):
   THROW-CODE       sticky code stored first; with a handler installed a throw never falls through
   CTX-WRITERS      protocol fields of the context written only by the protocol
   NO-SHARED-STATE  no writable file-scope/static state besides the context pointer (thread-local under MULTI)
+  INSTALL-MUST     (c19_install.py) every normal return of a parameter setter passed the installation sequence
+  HIST-FREE        (c19_hist.py) no context field is updated from its own old value before the same call assigned it
 """
 from .. import ir, xcfg, engines
 from ..facts import AnalysisBroken
@@ -720,6 +722,8 @@ def selfcheck(ctx, prog, chk):
     analyse(ctx, prog, chk, floors=False)
     from . import c19_install
     c19_install.analyse(ctx, prog, chk)
+    from . import c19_hist
+    c19_hist.analyse(ctx, prog, chk)
 
 
 def run(ctx, chk):
@@ -737,6 +741,8 @@ def run(ctx, chk):
     m = analyse(ctx, multi, chk, multi=True)
     from . import c19_install
     c19_install.run(ctx, chk)
+    from . import c19_hist
+    c19_hist.run(ctx, chk)
     if chk.tier == "thorough":
         for cfg in ("P255", "P381"):
             p = ctx.program(cfg)
